@@ -1,1 +1,32 @@
-"""C17 driver (registered lazily)."""
+"""C17 driver: the real get_page_tree() on the sandbox's page directory."""
+import os
+import sys
+
+from .drivers import register
+
+
+def dump_node(node):
+    return {"path": str(node.path), "title": node.title,
+            "subpages": [dump_node(s) for s in node.subpages],
+            "files": [str(f) for f in node.files]}
+
+
+@register("c17_pagetree")
+def drv_c17(spec, S, variant):
+    import copy
+    import pathlib
+    import ford
+    from ford._markdown import MetaMarkdown
+    from ford.pagetree import get_page_tree
+    sys.argv = list(spec["argv"])
+    proj_data, proj_docs = ford.initialize()
+    project = ford.fortran_project.Project(proj_data)
+    project.correlate()
+    aliases = copy.copy(proj_data.alias)
+    url_path = pathlib.Path(proj_data.project_url)
+    aliases.update({"url": str(url_path), "media": str(url_path / "media"), "page": str(url_path / "page")})
+    md = MetaMarkdown(proj_data.md_base_dir, base_url=proj_data.project_url, extensions=proj_data.md_extensions,
+                      aliases=aliases, project=project)
+    tree = get_page_tree(proj_data.page_dir, proj_data.copy_subdir, proj_data.output_dir, md,
+                         encoding=proj_data.encoding)
+    return {"tree": dump_node(tree) if tree is not None else None}
